@@ -43,6 +43,23 @@ pub struct RealScenario {
     pub events: Vec<Vec<Req>>,
     /// the node stops (storage dropped without further ado, then reopened) after these many groups
     pub stops: Vec<usize>,
+    /// the node is killed instead: the files are imaged as they are while the backend is still open
+    /// (no clean close), and the next incarnation starts on the image
+    #[serde(default)]
+    pub kill: bool,
+}
+
+fn image_files(backend: &str, from: &std::path::Path, to: &std::path::Path) -> Result<(), String> {
+    let src = if backend == "sqlite" { from.to_path_buf() } else { from.join("lmdb") };
+    let dst = if backend == "sqlite" { to.to_path_buf() } else { to.join("lmdb") };
+    std::fs::create_dir_all(&dst).map_err(|e| e.to_string())?;
+    for e in std::fs::read_dir(&src).map_err(|e| e.to_string())? {
+        let e = e.map_err(|e| e.to_string())?;
+        if e.path().is_file() {
+            std::fs::copy(e.path(), dst.join(e.file_name())).map_err(|e| e.to_string())?;
+        }
+    }
+    Ok(())
 }
 
 async fn real_listing<S: datacake_eventual_consistency::Storage>(group: &datacake_eventual_consistency::verif::KeyspaceGroup<S>, storage: &S, ks: &str) -> Result<(Listing, Listing), String> {
@@ -64,7 +81,7 @@ async fn real_listing<S: datacake_eventual_consistency::Storage>(group: &datacak
     Ok((sl, (live, dead)))
 }
 
-async fn real_incarnation<O: super::c17::Opener>(sc: &RealScenario, dir: &std::path::Path, boots: usize, mut next: usize, stop_at: usize, out: &mut Outcome, tr: &mut Fnv) -> Result<(std::sync::Arc<O::S>, usize), String>
+async fn real_incarnation<O: super::c17::Opener>(sc: &RealScenario, dir: &std::path::Path, image_to: Option<&std::path::Path>, boots: usize, mut next: usize, stop_at: usize, out: &mut Outcome, tr: &mut Fnv) -> Result<(std::sync::Arc<O::S>, usize), String>
 where
     O::S: datacake_eventual_consistency::Storage,
 {
@@ -113,6 +130,11 @@ where
         }
         next += 1;
     }
+    if let Some(img) = image_to {
+        // kill -9 image: every request above has returned, the backend is still open
+        image_files(b, dir, img).map_err(|e| format!("harness: imaging the files failed: {e}"))?;
+        out.fault("node_killed_files_imaged_without_close");
+    }
     Ok((storage, next))
 }
 
@@ -120,7 +142,9 @@ fn real_run<O: super::c17::Opener>(sc: &RealScenario, out: &mut Outcome, tr: &mu
 where
     O::S: datacake_eventual_consistency::Storage,
 {
-    let dir = super::c17::scratch_dir();
+    let root = super::c17::scratch_dir();
+    let mut dir = root.join("i0");
+    std::fs::create_dir_all(&dir).map_err(|e| format!("harness: {e}"))?;
     let mut next = 0usize;
     let mut boots = 0usize;
     let mut stops: Vec<usize> = sc.stops.iter().copied().filter(|s| *s <= sc.events.len()).collect();
@@ -131,18 +155,22 @@ where
         let stop_at = stops.iter().copied().find(|s| *s > next).unwrap_or(usize::MAX);
         // one runtime per incarnation: the stop takes every task of the node with it, the files stay
         let rt = tokio::runtime::Builder::new_current_thread().enable_time().build().expect("runtime");
-        let res = rt.block_on(real_incarnation::<O>(sc, &dir, boots, next, stop_at, out, tr));
+        let image = if sc.kill && boots < stops.len() { Some(root.join(format!("i{}", boots + 1))) } else { None };
+        let res = rt.block_on(real_incarnation::<O>(sc, &dir, image.as_deref(), boots, next, stop_at, out, tr));
         drop(rt);
         let (storage, n) = res?;
         next = n;
         boots += 1;
         let storage = std::sync::Arc::try_unwrap(storage).map_err(|_| "harness: storage still shared after the node's runtime was dropped".to_string())?;
         closer.block_on(O::close(storage));
+        if let Some(img) = image {
+            dir = img;
+        }
         if boots > stops.len() {
             break;
         }
     }
-    let _ = std::fs::remove_dir_all(&dir);
+    let _ = std::fs::remove_dir_all(&root);
     Ok(())
 }
 
@@ -366,7 +394,7 @@ impl Check for C07 {
         "E1 single-node engine: crash = the whole tokio runtime is dropped at the chosen instant (every task cancelled at its await point, in-flight storage call parked after a chosen durable prefix); restart = fresh runtime + KeyspaceGroup::load_states_from_storage on the surviving SimStorage"
     }
     fn rule(&self) -> &'static str {
-        "Cases: for each seeded request history (3-24 sequential set/multi_set/del/multi_del/batch/purge requests, 1-3 keyspaces, timestamps near now / hours old / future, occasional storage failure) EVERY crash point of the grid is taken: after request group g for g in 0..24, and inside mutating storage call n in 1..16 with 0, 1 or all of its writes durable (72 crash points per history); the enumeration is complete over that grid for the stated number of histories. Beyond the grid, seeded cases add a second crash after the first restart, and one case in 24 runs a history over real SQLite / LMDB files (origin node ids up to 255 in the persisted timestamps) with the node stopped between requests and restarted on the same files. After restart: rebuilt set (Serialize, validated) == store rows for every keyspace the store lists; the rest of the history is then replayed with the C02 oracle after every request; every write of an acknowledged request is still in the store (or superseded / purged). Non-trivial = >= 2 storage writes and >= 1 stored row. Distinct = hash of (store state at crash, storage trace, crash position)."
+        "Cases: for each seeded request history (3-24 sequential set/multi_set/del/multi_del/batch/purge requests, 1-3 keyspaces, timestamps near now / hours old / future, occasional storage failure) EVERY crash point of the grid is taken: after request group g for g in 0..24, and inside mutating storage call n in 1..16 with 0, 1 or all of its writes durable (72 crash points per history); the enumeration is complete over that grid for the stated number of histories. Beyond the grid, seeded cases add a second crash after the first restart, and one case in 24 runs a history over real SQLite / LMDB files (origin node ids up to 255 in the persisted timestamps) with the node stopped between requests and restarted on the same files (clean stop, or kill: the files are imaged while the backend is still open and the next incarnation runs on the image). After restart: rebuilt set (Serialize, validated) == store rows for every keyspace the store lists; the rest of the history is then replayed with the C02 oracle after every request; every write of an acknowledged request is still in the store (or superseded / purged). Non-trivial = >= 2 storage writes and >= 1 stored row. Distinct = hash of (store state at crash, storage trace, crash position)."
     }
     fn assumptions(&self) -> Vec<String> {
         vec![
@@ -409,7 +437,7 @@ impl Check for C07 {
             let groups = rng.gen_range(3..=14);
             let events: Vec<Vec<Req>> = gen_history(&mut rng, groups, &cfg, 0.0).into_iter().map(|g| g.into_iter().map(|mut r| { r.route = "actor".into(); r }).collect()).collect();
             let stops: Vec<usize> = (0..rng.gen_range(1..=2)).map(|_| rng.gen_range(1..=groups)).collect();
-            let sc = RealScenario { backend: if idx % 48 == 23 { "sqlite" } else { "lmdb" }.to_string(), base_ms: cfg.base_ms, events, stops };
+            let sc = RealScenario { backend: if idx % 48 == 23 { "sqlite" } else { "lmdb" }.to_string(), base_ms: cfg.base_ms, events, stops, kill: rng.gen_bool(0.4) };
             return serde_json::json!({ "real": sc });
         }
         let hist = if tier == Tier::Quick { HISTORIES_QUICK } else { HISTORIES_THOROUGH };
